@@ -2,6 +2,7 @@ mod e1;
 mod guard;
 mod e2;
 mod e3;
+mod e4;
 mod tables;
 mod util;
 
@@ -34,6 +35,7 @@ fn main() {
                 "overhead" => e3::overhead(&mut rec, &mut rng, thorough),
                 "plan" => e3::plan(&mut rec, &mut rng, thorough),
                 "linear" => e3::linear(&mut rec, &mut rng, thorough),
+                "matrices" => e4::matrices(&mut rec, &mut rng, thorough),
                 "wire" => e2::wire(&mut rec, &mut rng, thorough),
                 "otinew" => e2::oti_new(&mut rec, &mut rng, thorough),
                 "partition" => e2::partition(&mut rec, &mut rng, thorough),
